@@ -21,7 +21,7 @@ EXPLANATION = ("symbolic execution of moclo/regex.py on symbolic targets: the se
                "against a declarative oracle (exists a match at i on the circular/linear reading)")
 ASSUMPTIONS = [
     "targets are over ACGT (search) or ACGT x case (letter table); pattern letters are upper case",
-    "pattern shapes: literals, IUPAC letters, capture groups, X*, X*?, X+, X?, X{m,n} on a single letter (<= 2 runs)",
+    "pattern shapes: literals, IUPAC letters, capture groups, X*, X*?, X+, X?, X{m,n} on a single letter (<= 4 runs)",
     "CPython `re` is replaced by an SMT model encoding its backtracking order, validated against the real `re`",
     "1 <= n <= bound, 0 <= pos, endpos <= n+2 (plus the default endpos)",
 ]
@@ -235,7 +235,7 @@ SHAPES = [
     "AA(N)T", "ACA(N*?)G", "GNNNNNNNN(NN)C", "GA(N*)TC", "GA(N*?)TC", "A(NN*N)(K)C", "(M)GN*?(T)", "R(N)Y", "(GG)N{1,3}(CC)",
     "G(N)(N*)(N)C", "(S)(W+)(S)", "AN?T", "(A(N)T)", "C(N*)G(N*?)C", "(NN)(N*?)(NN)T",
     "GGTCTCN(NN)", "(B)(D*)(H)", "T(V+?)A", "(A)(C*)(G*)T", "N(N*?)N", "(K{2,3})M",
-    "GAAGAC(NN)(N*?)A", "(Y)(R*)(Y)(R*?)G", "A(N{0,2})C", "((G)(N*))T", "W(S*?)W", "(N)(N)(N)",
+    "GAAGAC(NN)(N*?)A", "(Y)(R*)(Y)(R*?)G", "G(N+)A(N*)T(N*?)C", "A(N{0,2})C", "((G)(N*))T", "W(S*?)W", "(N)(N)(N)",
 ]
 
 
